@@ -201,16 +201,18 @@ def rule_c09_spaces(prog: Program, col: Collector) -> None:
     while is_call_to(inner, "list", "tuple", "sorted") and inner[2]:
         inner = inner[2][0]
     okx = False
+    from ..terms import _membership_container
+    known_forms = (ikv, A("initially_known_coalitions"), _membership_container(ikv))        # membership in list(S) / frozenset(S) is membership in S
     if is_call_to(inner, "filter") and len(inner[2]) == 2 and inner[2][0][0] == "lambda":
         lam = inner[2][0]
         body = lam[2]
         x = lam[1][0]
-        okx = body[0] == "cmp" and body[1] == "not in" and body[2] == x and body[3] in (ikv, A("initially_known_coalitions")) \
+        okx = body[0] == "cmp" and body[1] == "not in" and body[2] == x and body[3] in known_forms \
             and is_call_to(inner[2][1], P + "coalitions.all_coalitions")
     elif inner[0] == "comp" and len(inner[3]) == 1:
         elem, it, conds = inner[3][0]
         okx = inner[2] == elem and is_call_to(it, P + "coalitions.all_coalitions") and len(conds) == 1 and conds[0][0] == "cmp" \
-            and conds[0][1] == "not in" and conds[0][2] == elem and conds[0][3] in (ikv, A("initially_known_coalitions"))
+            and conds[0][1] == "not in" and conds[0][2] == elem and conds[0][3] in known_forms
     col.check(okx, init.where(ex[-1].node), init.short, "explorable_coalitions = [c for c in all_coalitions(...) if c not in initially_known]",
               construct="explorable", necessity="explorable must be exactly the coalitions whose value is not known from the start")
     col.check(is_call_to(exv, "list", "sorted") or (exv[0] == "comp" and exv[1] == "list"), init.where(ex[-1].node), init.short,
